@@ -330,7 +330,7 @@ class PrettyPrinter:
             type_ = composite["__type__"]
             if type_ in ("metadata", "validation", "connectionoptions"):
                 # types are being parsed directly, and not as an attr of a parent
-                lines += self.process_key_dict(type_, composite, level=0)
+                lines += self.process_key_dict(type_, composite, level=-1)
             else:
                 lines += self._format(composite)
 
